@@ -8,6 +8,8 @@ func propC10(c *Ctx) propInfo {
 	c.floor("E4b.tl-primitives", 25)
 	c.floor("E4.tlschema", 300)
 	c.intFamily(true, false, false)
+	c.valueReceivers("E14.value-receivers", "MarshalTL", "liteclient", "tl", "ton", "tlb")
+	c.floor("E14.value-receivers", 50)
 	return propInfo{
 		explanation: "Static structural clauses of C10 (DESIGN.md §4 C10): lite_api.tl is parsed by an independent parser and compared with the generated bindings (request ids, decoder table, struct shapes, MarshalTL/UnmarshalTL field and mode-bit guard lists, boxed ids), TL primitive encoder/decoder constants agree with each other and with the TL spec table, and the generated integer types have the declared widths on both codec sides. Does not decide byte identity of checked-in files with generator output. The vector decoder's loop is bounded by the decoded count itself; the encoder announces the length it iterates.",
 	}
